@@ -195,9 +195,48 @@ def _embed(a, b):
     return 0
 
 
+def hermitian_case(rng):
+    """eigh of a Hermitian matrix whose signs are pending (global sign: the value -H is Hermitian too)"""
+    import symmray as sr
+
+    sym = rng.choice(gen.SYMS)
+    ix = gen.rand_index(rng, sym, max_charges=3, max_size=3)
+    if rng.random() < 0.5:
+        ix = ix.conj()
+    x = gen.rand_array(rng, sym, indices=[ix, ix.conj()], fermi=True, dtype=rng.choice(["float64", "complex128"]),
+                       keep=rng.choice([0.6, 1.0]), charge=gen.py_combine(sym, []))
+    for s_, b in list(x.blocks.items()):
+        b = np.asarray(b)
+        x.blocks[s_] = b + b.conj().T
+    env = {"x": x}
+    steps = [{"out": ["y"], "op": "phase_global", "in": ["x"], "params": {}}]
+    res, env2 = impl.run_prog(env, steps)
+    y = env2["y"]
+    orc = None
+    try:
+        wl, vl = sr.linalg.eigh(y)
+        we, ve = sr.linalg.eigh(y.phase_sync())
+        el = sorted(round(float(t), 8) for b in wl.blocks.values() for t in np.asarray(b))
+        ee = sorted(round(float(t), 8) for b in we.blocks.values() for t in np.asarray(b))
+        if el != ee:
+            orc = "eigenvalues of a lazily signed Hermitian matrix differ from those of its synchronised copy"
+        else:
+            rec = vl.multiply_diagonal(wl, 1) @ vl.dagger()
+            if not _close(rec, y):
+                orc = "eigh of a lazily signed Hermitian matrix does not reconstruct its value"
+    except np.linalg.LinAlgError:
+        pass
+    except Exception as e:  # noqa
+        orc = f"eigh on a lazily signed matrix raised {type(e).__name__}: {e}"
+    case = {"kind": "prog", "env": {k: ser.enc_val(v) for k, v in env.items()}, "steps": steps}
+    return dict(case=case, impl=stream.strip_py(res), oracle=orc,
+                meta=dict(sym=sym, fermi=True, kind="hermitian-eigh", pending=True),
+                nontrivial=True, op="eigh", triggers=[])
+
+
 def gen_cases(seed, chunk, n, tier):
     rng = random.Random(seed * 7919 + chunk * 104729 + 9)
-    out = []
+    out = [hermitian_case(rng) for _ in range(max(1, n // 8))]
     for _ in range(n):
         env0, steps, results, meta = progs.rand_program(rng, fermi=True, length=rng.randint(1, 5), pending=True)
         # rebuild python env from the encoded one is avoided: regenerate by replaying on decoded arrays
